@@ -1,5 +1,318 @@
-"""improvement environments (k-opt TSP, PDP ruin-repair): placeholder, filled in with C09"""
+"""C09 (+ the improvement part of C06): k-opt TSP and PDP ruin-repair environments.
+
+(a) one admitted move on an ARBITRARY valid tour (symbolic successor array constrained to be a single cycle, PDP:
+    pickups before deliveries) yields a valid tour again;
+(b) bookkeeping: from the real `_reset` (initial solution = arbitrary valid tour) two real `_step`s with admitted
+    moves keep cost_current = length(rec_current), cost_bsf = length(rec_best) = min over tours seen,
+    reward = decrease of cost_bsf >= 0, and rec_best changes only when improved (aliasing)."""
+from __future__ import annotations
+
+import types
+
+import numpy as np
+import z3
+
+from symtorch import explore, world
+from symtorch import tensor as T
+from symtorch.scalar import PathAbort, _bool, is_sym, s_and, s_eq, s_ge, s_le, s_lt, s_not, s_or, s_where
+from symtorch.tdict import TensorDict
+
+from . import core
+from . import oracle as O
+from .episodes import ENV_ERRORS
+from .oracle import all_, any_, pick
+
+
+def sym_tour(E, name, gs, pdp=False):
+    """successor array of an arbitrary single cycle through gs nodes (node 0 first in the visiting order)"""
+    order = [0] + [z3.Int(f"{name}_ord{t}") for t in range(1, gs)]
+    for t in range(1, gs):
+        E.assume(z3.And(order[t] >= 1, order[t] < gs))
+    if gs > 2:
+        E.assume(z3.Distinct(*order[1:]))
+    rec = [z3.Int(f"{name}_rec{v}") for v in range(gs)]
+    for v in range(gs):
+        E.assume(z3.And(rec[v] >= 0, rec[v] < gs))
+    for t in range(gs):
+        nxt = order[(t + 1) % gs]
+        for v in range(gs):
+            E.assume(z3.Implies(order[t] == v, rec[v] == nxt) if is_sym(order[t]) else (rec[v] == nxt if order[t] == v else True))
+    if pdp:
+        h = (gs - 1) // 2
+        pos = [0] + [z3.Int(f"{name}_pos{v}") for v in range(1, gs)]
+        for v in range(1, gs):
+            E.assume(z3.And(*[z3.Implies(order[t] == v, pos[v] == t) for t in range(1, gs)]))
+        for p in range(1, h + 1):
+            E.assume(pos[p] < pos[p + h])
+    return rec, order
+
+
+def single_cycle(rec, gs):
+    """following the successor array from node 0 visits every node once and returns to 0"""
+    cur, seen = 0, [0]
+    for _ in range(gs - 1):
+        cur = pick(cur, rec) if is_sym(cur) else rec[int(cur)]
+        seen.append(cur)
+    back = pick(cur, rec) if is_sym(cur) else rec[int(cur)]
+    distinct = all_([T.s_ne(seen[i], seen[j]) for i in range(gs) for j in range(i + 1, gs)])
+    inrange = all_([s_and(s_ge(x, 0), s_lt(x, gs)) for x in rec])
+    return s_and(inrange, s_and(distinct, s_eq(back, 0))), seen
+
+
+def precedence_ok(seen, gs):
+    h = (gs - 1) // 2
+    conds = []
+    for p in range(1, h + 1):
+        # position of p before position of p+h in the visiting order `seen`
+        conds.append(any_([s_and(s_eq(seen[i], p), any_([s_eq(seen[j], p + h) for j in range(i + 1, gs)])) for i in range(gs)]))
+    return all_(conds)
+
+
+def tour_len(rec, D, gs):
+    tot = 0.0
+    for v in range(gs):
+        tot = T.s_add(tot, pick(rec[v], D[v]) if is_sym(rec[v]) else D[v][int(rec[v])])
+    return tot
+
+
+def _mk_env(w, kind, n, k_max):
+    if kind == "kopt":
+        mod = w.load("rl4co.envs.routing.tsp.env")
+        env = mod.TSPkoptEnv(generator_params={"num_loc": n}, k_max=k_max, check_solution=False)
+        return env, n
+    mod = w.load("rl4co.envs.routing.pdp.env")
+    env = mod.PDPRuinRepairEnv(generator_params={"num_loc": n}, check_solution=False)
+    return env, n + 1
+
+
+def _sym_action(E, env, kind, gs, td, tag):
+    """an arbitrary move admitted by the environment's own move mask"""
+    if kind == "kopt":
+        a = [z3.Int(f"{tag}_first"), z3.Int(f"{tag}_second")]
+        for x in a:
+            E.assume(z3.And(x >= 0, x < gs))
+        mask = env.get_mask(td)  # [1, gs, gs]
+        E.assume(_bool(O.pick2(a[0], a[1], [list(r) for r in mask.a[0]])))
+        return T.Tensor(np.array([a], dtype=object), T.int64)
+    h = (gs - 1) // 2
+    a = [z3.Int(f"{tag}_pair"), z3.Int(f"{tag}_first"), z3.Int(f"{tag}_second")]
+    E.assume(z3.And(a[0] >= 0, a[0] < h, a[1] >= 0, a[1] < gs, a[2] >= 0, a[2] < gs))
+    sel = T.Tensor(np.array([[a[0] + 1]], dtype=object), T.int64)
+    mask = env.get_mask(sel, td)
+    E.obligations = []
+    E.assume(_bool(O.pick2(a[1], a[2], [list(r) for r in mask.a[0]])))
+    return T.Tensor(np.array([a], dtype=object), T.int64)
+
+
+def _visited_time(order, gs):
+    vt = []
+    for v in range(gs):
+        if v == 0:
+            vt.append(gs)
+            continue
+        acc = 0
+        for t in range(1, gs):
+            acc = s_where(s_eq(order[t], v), t, acc)
+        vt.append(acc)
+    return T.Tensor(np.array([vt], dtype=object), T.int64)
+
+
+def move_job(job_id, kind="kopt", n=4, k_max=2, source_filter=None):
+    E = explore.EXP
+    ctx = core.Ctx(job_id)
+    w = world.make_world(source_filter=source_filter)
+    env, gs = _mk_env(w, kind, n, k_max)
+    ctx.bounds = {"env": kind, "nodes": gs, "k": k_max, "what": "one admitted move from an arbitrary valid tour"}
+    ctx.assumptions.add("pre-state: the successor array is an arbitrary single cycle through all nodes (PDP: every pickup before its delivery); the move is admitted by the environment's own move mask")
+
+    def cexb(E_, neg):
+        if E_.check(neg) == z3.sat:
+            m = E_.model()
+            return [{"kind": "script", "path": core.ROOT + "/vf/torch_side", "module": "improve_side", "func": "run_move", "model_kind": "plain", "mode": "C09",
+                     "params": {"kind": kind, "n": n, "k_max": k_max, "rec": [int(core.model_value(m, x)) for x in holder["rec"]],
+                                "action": [int(core.model_value(m, x)) for x in holder["act"].a[0]]}}]
+        return []
+
+    holder = {}
+
+    def harness():
+        rec, order = sym_tour(E, "s", gs, pdp=(kind == "pdp"))
+        holder["rec"] = rec
+        sol = T.Tensor(np.array([rec], dtype=object), T.int64)
+        td = TensorDict({"visited_time": _visited_time(order, gs), "rec_current": sol, "rec_best": sol.clone()}, batch_size=[1])
+        act = _sym_action(E, env, kind, gs, td, "m")
+        holder["act"] = act
+        try:
+            nxt = env._local_operator(sol, act)
+        except ENV_ERRORS as e:
+            ctx.prove(E, f"{kind}: applying an admitted move raises {type(e).__name__}: {str(e)[:60]}", False, cexb)
+            return
+        if E.obligations:
+            obs, E.obligations = E.obligations, []
+            ctx.prove(E, f"{kind}: index preconditions of the move operator ({obs[0][0]}, ...)", z3.And(*[_bool(c) for _, c in obs]), cexb)
+        ok, seen = single_cycle(list(nxt.a[0]), gs)
+        ctx.prove(E, f"{kind} n={gs} k={k_max}: an admitted move turns a valid tour into a single cycle through all nodes", ok, cexb)
+        if kind == "pdp":
+            ctx.prove(E, f"{kind} n={gs}: after the move every pickup is still visited before its delivery", s_or(s_not(ok), precedence_ok(seen, gs)), cexb)
+        ctx.states += 1
+        ctx.transitions += 1
+
+    try:
+        E.run(harness)
+    except explore.Inconclusive as e:
+        return ctx.result(E, w, status="inconclusive", error=str(e))
+    if not ctx.obligations:
+        return ctx.result(E, w, status="error", error="vacuous")
+    return ctx.result(E, w)
+
+
+def bookkeeping_job(job_id, kind="kopt", n=4, k_max=2, steps=2, source_filter=None):
+    E = explore.EXP
+    ctx = core.Ctx(job_id)
+    w = world.make_world(source_filter=source_filter)
+    env, gs = _mk_env(w, kind, n, k_max)
+    ctx.bounds = {"env": kind, "nodes": gs, "steps": steps, "what": "bookkeeping from the real reset over successive admitted moves"}
+    ctx.assumptions.add("initial solution: arbitrary valid tour (generator stub); moves admitted by the environment's mask")
+    ctx.stubs.add("generator._get_initial_solutions: returns an arbitrary valid tour")
+
+    def cexb(E_, neg):
+        if E_.check(neg) == z3.sat:
+            m = E_.model()
+            return [{"kind": "script", "path": core.ROOT + "/vf/torch_side", "module": "improve_side", "func": "run_steps", "model_kind": "plain", "mode": "C09",
+                     "params": {"kind": kind, "n": n, "k_max": k_max, "rec": [int(core.model_value(m, x)) for x in holder["rec"]],
+                                "locs": [[float(core.model_value(m, c)) for c in row] for row in holder["locs"]],
+                                "actions": [[int(core.model_value(m, x)) for x in a.a[0]] for a in holder["acts"]]}}]
+        return []
+
+    holder = {}
+
+    def harness():
+        rec, order = sym_tour(E, "s", gs, pdp=(kind == "pdp"))
+        holder["rec"], holder["acts"] = rec, []
+        X = [z3.Real(f"x{v}") for v in range(gs)]
+        Y = [z3.Real(f"y{v}") for v in range(gs)]
+        for c in X + Y:
+            E.assume(z3.And(c >= 0, c <= 1))
+        holder["locs"] = [[X[v], Y[v]] for v in range(gs)]
+        D = O.dist_matrix(X, Y)
+        sol = T.Tensor(np.array([rec], dtype=object), T.int64)
+        env.generator._get_initial_solutions = lambda coords: sol.clone()
+        if kind == "kopt":
+            td_in = TensorDict({"locs": T.Tensor(np.array([[[X[v], Y[v]] for v in range(gs)]], dtype=object), T.float32)}, batch_size=[1])
+        else:
+            td_in = TensorDict({"depot": T.Tensor(np.array([[X[0], Y[0]]], dtype=object), T.float32),
+                                "locs": T.Tensor(np.array([[[X[v], Y[v]] for v in range(1, gs)]], dtype=object), T.float32)}, batch_size=[1])
+        td = env.reset(td_in)
+        E.obligations = []
+        L0 = tour_len(rec, D, gs)
+        ctx.prove(E, f"{kind}: after reset cost_current == cost_bsf == length of the initial tour", s_and(s_eq(td["cost_current"].a[0], L0), s_eq(td["cost_bsf"].a[0], L0)), cexb)
+        best_len, total_reward = L0, 0.0
+        seen_lens = [L0]
+        for t in range(steps):
+            act = _sym_action(E, env, kind, gs, td, f"m{t}")
+            holder["acts"].append(act)
+            td.set("action", act)
+            prev_best = [x for x in td["rec_best"].a[0]]
+            try:
+                td = env.step(td)["next"]
+            except ENV_ERRORS as e:
+                ctx.prove(E, f"{kind}: stepping an admitted move raises {type(e).__name__}: {str(e)[:60]}", False, cexb)
+                raise PathAbort()
+            E.obligations = []
+            cur = list(td["rec_current"].a[0])
+            best = list(td["rec_best"].a[0])
+            Lc = tour_len(cur, D, gs)
+            seen_lens.append(Lc)
+            new_best = T.s_min(best_len, Lc)
+            nm = f"{kind} n={gs} step {t}"
+            ctx.prove(E, f"{nm}: cost_current equals the length of the current tour", s_eq(td["cost_current"].a[0], Lc), cexb)
+            ctx.prove(E, f"{nm}: cost_bsf equals the minimum length over all tours seen so far and never increases", s_eq(td["cost_bsf"].a[0], new_best), cexb)
+            ctx.prove(E, f"{nm}: cost_bsf equals the length of the stored best tour", s_eq(td["cost_bsf"].a[0], tour_len(best, D, gs)), cexb)
+            ctx.prove(E, f"{nm}: reward equals the decrease of the best-so-far cost (>= 0)", s_and(s_eq(td["reward"].a[0], T.s_sub(best_len, new_best)), s_ge(td["reward"].a[0], 0)), cexb)
+            ctx.prove(E, f"{nm}: the stored best tour changes only when the new tour is strictly better (no aliasing with the current tour)",
+                      s_or(s_lt(Lc, best_len), all_([s_eq(a_, b_) for a_, b_ in zip(best, prev_best)])), cexb)
+            okc, _ = single_cycle(best, gs)
+            ctx.prove(E, f"{nm}: the stored best tour is a valid tour", okc, cexb)
+            total_reward = T.s_add(total_reward, td["reward"].a[0])
+            best_len = new_best
+            ctx.transitions += 1
+        ctx.prove(E, f"{kind} n={gs}: rewards sum to initial cost minus best cost", s_eq(total_reward, T.s_sub(L0, best_len)), cexb)
+        ctx.states += 1
+
+    try:
+        E.run(harness)
+    except explore.Inconclusive as e:
+        return ctx.result(E, w, status="inconclusive", error=str(e))
+    if not ctx.obligations:
+        return ctx.result(E, w, status="error", error="vacuous")
+    return ctx.result(E, w)
 
 
 def improvement_checker_job(job_id, n=4, source_filter=None):
-    raise NotImplementedError
+    """C06 for the improvement envs: check_solution_validity on an ARBITRARY successor array vs 'is a valid tour'"""
+    E = explore.EXP
+    ctx = core.Ctx(job_id)
+    w = world.make_world(source_filter=source_filter)
+    ctx.bounds = {"nodes": n, "what": "arbitrary successor arrays (any values in range)"}
+
+    for kind in ("kopt", "pdp"):
+        env, gs = _mk_env(w, kind, n if kind == "kopt" else (n - n % 2), 2)
+        stats = {"accept": 0, "reject": 0}
+        holder = {}
+
+        def cexb(E_, neg, kind=kind, gs=gs):
+            if E_.check(neg) == z3.sat:
+                m = E_.model()
+                return [{"kind": "script", "path": core.ROOT + "/vf/torch_side", "module": "improve_side", "func": "run_checker", "model_kind": "plain", "mode": "C06i",
+                         "params": {"kind": kind, "n": gs if kind == "kopt" else gs - 1, "rec": [int(core.model_value(m, x)) for x in holder["rec"]], "verdict": holder["verdict"]}}]
+            return []
+
+        def harness(kind=kind, gs=gs, env=env):
+            rec = [z3.Int(f"{kind}_rec{v}") for v in range(gs)]
+            for x in rec:
+                E.assume(z3.And(x >= 0, x < gs))
+            holder["rec"] = rec
+            td = TensorDict({"rec_best": T.Tensor(np.array([rec], dtype=object), T.int64)}, batch_size=[1])
+            verdict = "accept"
+            try:
+                env.check_solution_validity(td)
+            except AssertionError:
+                verdict = "reject"
+            except ENV_ERRORS as e:
+                verdict = f"error:{type(e).__name__}"
+            E.obligations = []
+            holder["verdict"] = verdict
+            ok, seen = single_cycle(rec, gs)
+            if kind == "pdp":
+                ok = s_and(ok, precedence_ok(seen, gs))
+            ctx.states += 1
+            ctx.transitions += 1
+            if verdict == "accept":
+                stats["accept"] += 1
+                ctx.prove(E, f"{kind} checker n={gs}: an ACCEPTED successor array is a valid tour (single cycle{', pickups first' if kind == 'pdp' else ''}) (path {E.trace})", ok, cexb)
+            elif verdict == "reject":
+                stats["reject"] += 1
+                ctx.prove(E, f"{kind} checker n={gs}: a REJECTED successor array is not a valid tour (path {E.trace})", s_not(ok), cexb)
+            else:
+                ctx.prove(E, f"{kind} checker n={gs}: must not crash ({verdict})", False, cexb)
+
+        try:
+            E.run(harness)
+        except explore.Inconclusive as e:
+            return ctx.result(E, w, status="inconclusive", error=str(e))
+        ctx.notes.append(f"{kind}: accepted paths={stats['accept']} rejected paths={stats['reject']}")
+    if not ctx.obligations:
+        return ctx.result(E, w, status="error", error="vacuous")
+    return ctx.result(E, w)
+
+
+def confirm_checker(rp, resp):
+    if "error" in resp:
+        return False, "torch side failed: " + resp["error"]
+    p = rp["params"]
+    real_accepts = resp["verdict"] == "accept"
+    if real_accepts and not resp["valid_tour"]:
+        return True, f"the real {p['kind']} checker ACCEPTS the successor array {p['rec']} which is not a valid tour ({resp['why']})"
+    if not real_accepts and resp["valid_tour"]:
+        return True, f"the real {p['kind']} checker REJECTS the valid tour {p['rec']}: {resp['verdict']}"
+    return False, "real checker and ground truth agree"
